@@ -119,6 +119,7 @@ type kfEntry struct {
 	Sub      string
 	Site     string
 	Trigger  []string
+	MinPar   int // the finding needs at least this many execute units / cores
 	Witness  string
 	What     string
 	Active   bool
@@ -156,6 +157,9 @@ func loadKnownFindings() kfFile {
 		case strings.HasPrefix(line, "finding:"):
 			m := parseKV(strings.TrimPrefix(line, "finding:"))
 			e := kfEntry{ID: m["id"], Class: m["class"], Sub: m["sub"], Site: m["site"], Witness: m["witness"], What: m["what"]}
+			if m["minpar"] != "" {
+				fmt.Sscan(m["minpar"], &e.MinPar)
+			}
 			if m["trigger"] != "" {
 				e.Trigger = strings.Split(m["trigger"], ",")
 			}
@@ -183,6 +187,9 @@ func (e kfEntry) matches(f finding) bool {
 		return false
 	}
 	if !contains(strings.Split(e.Class, "|"), f.Class) {
+		return false
+	}
+	if e.MinPar > 0 && variantClass(f.Config.V) >= 6 && f.Config.EU < e.MinPar {
 		return false
 	}
 	if e.Sub != "" && !contains(strings.Split(e.Sub, "|"), subClass(f.Sub)) {
